@@ -206,6 +206,23 @@ def c02(res, tier, rng, wd):
         data = [b for f in fr for b in f]
         steps = [e1.rx(c) for c in (e1.chunk_random(rng, data) if rng.random() < 0.5 else [data])]
         scs.append(e1.scenario(len(scs), framing, [1, 2], steps, seed=rng.randrange(100), tag="c02-after-bad-frame"))
+    # a command that reaches the session between the reads of one split frame must not disturb its handling
+    split = []
+    for framing in ("tcp", "rtu"):
+        for k in range(60 if thorough else 16):
+            pdu = e1.random_valid_pdu(rng) if rng.random() < 0.7 else e1.req_wmr(3, [1, 2, 3])
+            if framing == "rtu" and not e1.rtu_delimitable(pdu):
+                continue
+            f = e1.frame(framing, 7 + k, 1, pdu)
+            cut = rng.choice([1, 2, 6, 7, 8, len(f) - 1])
+            cut = max(1, min(len(f) - 1, cut))
+            g = e1.frame(framing, 8 + k, 1, e1.readback_of(pdu) or e1.req_read(3, 0, 1))
+            steps = [e1.rx(f[:cut]), {"op": "decode", "level": rng.choice(e1.DECODES)}, e1.rx(f[cut:]), e1.rx(g)]
+            split.append(e1.scenario(len(scs) + len(split), framing, [1, 2], steps, seed=rng.randrange(100),
+                                     auth=rng.choice(AUTH_MODES[:3]), tag=f"c02-command-inside-split-frame@{cut}"))
+    scs += split
+    for i, x in enumerate(scs):
+        x["id"] = i
     run_e1(res, "C02", scs, wd, "c02")
     res.assumptions = E1_ASSUME
     return res.finish(rule="request class lattice and random sequences (half of the frames invalid: malformed, over-limit, "
@@ -598,6 +615,18 @@ REPLAYERS["e4"] = _replay_e4
 @check("C15")
 def c15(res, tier, rng, wd):
     thorough = tier == "thorough"
+    c = {"MaxSessions": 2, "MaxConns": 4 if thorough else 3, "QCap": 2, "SCap": 2, "CCap": 1, "MaxDecodes": 5 if thorough else 4,
+         "FanOut": '"try"'}
+    vf.design_run(res, "C15", "ServerTask_MC", "ServerTask_MC.tla", "Spec", c, ["Bounded", "AgeOrdered", "QueuesBounded"],
+                  ["ShutdownHonoured", "SessionsClosed"], workers=8)
+    c0 = dict(c)
+    c0["MaxSessions"] = 0
+    vf.design_run(res, "C15", "ServerTask_MC-max0", "ServerTask_MC.tla", "Spec", c0, ["Bounded", "AgeOrdered", "QueuesBounded"],
+                  ["ShutdownHonoured"], workers=8)
+    c2 = dict(c)
+    c2["FanOut"] = '"await"'
+    vf.design_run(res, "C15", "ServerTask_MC-neg(awaiting fan-out, F14)", "ServerTask_MC.tla", "Spec", c2, [], ["ShutdownHonoured"],
+                  expect_violation="ShutdownHonoured", workers=8)
     scs = e4.gen_c15(rng, 300 if thorough else 50, thorough)
     run_e4(res, "C15", scs, wd, "c15")
     tls = e4.gen_c15_tls(rng)
